@@ -15,9 +15,11 @@ def sh(cmd, cwd, timeout=1200):
 def main():
     wt, prop = sys.argv[1], sys.argv[2]
     extra = sys.argv[3:]
-    for mdir in sorted(glob.glob(os.path.join(wt, "mutant*"))):
+    pat = os.environ.get("HARVEST_GLOB", "mutant*")
+    tag = os.environ.get("HARVEST_TAG", "m")
+    for mdir in sorted(glob.glob(os.path.join(wt, pat))):
         name = os.path.basename(mdir)
-        idx = re.sub(r"\D", "", name) or "x"
+        idx = re.sub(r"\D", "", name.replace("r2", "")) or "x"
         patch = os.path.join(mdir, "patch.diff")
         if not os.path.exists(patch):
             print(name, "no patch.diff"); continue
@@ -49,7 +51,7 @@ def main():
         rc_wo, out_wo = sh(demo, wt, 600) if demo else (None, "")
         rec["confirmations"]["demo_passes_without_patch"] = (rc_wo == 0) and not bad(out_wo) and ("test result: ok" in out_wo or "PASS" in out_wo.upper())
         sh("git checkout -- . && git clean -fdq tests", wt)
-        dest = f"/verif/seeded/{prop}-m{idx}"
+        dest = f"/verif/seeded/{prop}-{tag}{idx}"
         os.makedirs(dest, exist_ok=True)
         for f in os.listdir(mdir):
             if os.path.isfile(os.path.join(mdir, f)) and os.path.getsize(os.path.join(mdir, f)) < 2_000_000:
